@@ -158,6 +158,8 @@ vfps::ElectricField::updateCSR( const frequency_t cutoff_frequency)
             // copy bunch profile to be padded
             auto bp = _phasespace->getProjection(0)[n];
             std::copy_n(bp.origin(),PhaseSpace::nx,_bp_padded);
+            // the buffer is shared with padBunchProfiles(): clear the padding
+            std::fill(_bp_padded+PhaseSpace::nx,_bp_padded+_nmax,integral_t(0));
 
             //FFT charge density
             fft::fft_execute(_fft_bunchprofile);
@@ -255,6 +257,8 @@ vfps::meshaxis_t *vfps::ElectricField::wakePotential()
 void vfps::ElectricField::padBunchProfiles()
 {
     auto bp= _phasespace->getProjection(0);
+    // the buffer is shared with updateCSR(): clear what is not overwritten below
+    std::fill_n(_bp_padded,_nmax,integral_t(0));
     for (uint32_t b=0; b<PhaseSpace::nb; b++) {
         std::copy_n( bp.origin()+b*PhaseSpace::nx
                    , PhaseSpace::nx
